@@ -34,6 +34,7 @@ class Pipe:
         self.error: BaseException | None = None
         self._waiters: list[asyncio.Future] = []
         self.total_fed = 0
+        self.feed_log: list[tuple[float, int | None]] = []  # (virtual time, nbytes | None for EOF) as actually fed
         self.capacity: int | None = None  # bounded pipe: writers wait while len(buf) >= capacity
         self._drain_waiters: list[asyncio.Future] = []
 
@@ -93,11 +94,14 @@ async def feeder(pipe: Pipe, script: list[tuple[float, Any]]) -> None:
         elif delay < 0:
             for _ in range(int(-delay)):
                 await asyncio.sleep(0)
+        now = asyncio.get_running_loop().time()
         if item is EOF:
+            pipe.feed_log.append((now, None))
             pipe.feed_eof()
         elif isinstance(item, BaseException):
             pipe.feed_error(item)
         else:
+            pipe.feed_log.append((now, len(item)))
             pipe.feed(item)
 
 
